@@ -24,11 +24,11 @@ VARIABLES l, m, viol
 vars == <<l, m, viol>>
 
 Stats0 == [cmds |-> 0, cbs |-> 0, units |-> 0, rows |-> 0, pvs |-> 0, pkts |-> 0, rds |-> 0]
-M0 == [run |-> "", kind |-> "", shim |-> "program", tls |-> FALSE, ctls |-> FALSE, ccert |-> FALSE, auth |-> "accept", mode |-> "pipelined",
+M0 == [run |-> "", kind |-> "", shim |-> "program", tls |-> FALSE, ctls |-> FALSE, ccert |-> FALSE, cchain |-> << >>, auth |-> "accept", mode |-> "pipelined",
        phase |-> "greet", inb |-> << >>, q |-> << >>, ob |-> << >>, unfl |-> 0, cur |-> 0,
        reg |-> << >>, lost |-> FALSE, free |-> FALSE, fault |-> FALSE, eof |-> FALSE, dead |-> "", token |-> -1,
        quit |-> FALSE, enc |-> FALSE, raw |-> << >>, hsdone |-> FALSE, blocked |-> FALSE,
-       floats |-> << >>, n |-> Stats0, done |-> FALSE, panics |-> << >>, wpanic |-> FALSE]
+       floats |-> << >>, n |-> Stats0, done |-> FALSE, panics |-> << >>, wpanic |-> FALSE, ever |-> {}]
 
 Init == l = 1 /\ m = M0 /\ viol = {}
 
@@ -115,6 +115,15 @@ Undecodable(what, why, at) ==
   \cup (IF why \in OkWhy THEN {V("C14", at, "completion packet undecodable: " \o why)} ELSE {})
   \cup (IF why \in ErrWhy THEN {V("C13", at, "error packet undecodable: " \o why)} ELSE {})
 
+\* rows the shim wrote (all calls reported success) that sit in a response the client cannot decode or never
+\* gets have not arrived "exactly as written": C06 (text) / C07 (binary)
+RowsLost(e, at) ==
+  IF e.cls.cb \notin {"on_query", "on_execute"} \/ ~ProgAllOk(e.prog) THEN {}
+  ELSE LET us == Denote(e.prog, e.bin, at).units IN
+       IF \E k \in 1..Len(us) : us[k].k = "rs" /\ Len(us[k].rows) > 0
+       THEN {V(IF e.bin THEN "C07" ELSE "C06", at, "rows written by the shim did not reach the client in a decodable response")}
+       ELSE {}
+
 \* sequence ids of the packets of messages M[1..used] must continue req+1 (C05)
 SeqViol(M, used, req, at) ==
   LET bad == {j \in 1..used : M[j].seq0 # (IF j = 1 THEN (req + 1) % 256 ELSE (M[j - 1].seqN + 1) % 256) \/ ~M[j].consec} IN
@@ -167,7 +176,7 @@ JudgeReply(mm, e, M, at) ==
   ELSE \* selvar, query, execute, use, initdb: a chain of response units
      LET d == DecResponse(M, 1) IN
      IF ~d.ok THEN [done |-> d.why \notin Incomplete, used |-> 0, floats |-> << >>, lost |-> d.why \notin Incomplete,
-                    viol |-> IF d.why \in Incomplete THEN {} ELSE Undecodable("response", d.why, at), why |-> d.why]
+                    viol |-> IF d.why \in Incomplete THEN {} ELSE Undecodable("response", d.why, at) \cup RowsLost(e, at), why |-> d.why]
      ELSE IF c.kind = "selvar" THEN
        [done |-> TRUE, used |-> d.next - 1, floats |-> << >>, lost |-> FALSE, viol |-> SeqViol(M, d.next - 1, e.seq, at)]
      ELSE
@@ -217,6 +226,7 @@ Consume(mm, v, at, strict) ==
                      v |-> v \cup {V("C03", at, "response missing or incomplete for a " \o e.cls.kind \o " command")}
                              \cup (IF "why" \in DOMAIN j /\ j.why \in MetaWhy
                                    THEN {V("C09", at, "column metadata incomplete: " \o j.why)} ELSE {})
+                             \cup (IF e.st = "ret" THEN RowsLost(e, at) ELSE {})
                              \cup (IF e.cls.cb \in {"on_query", "on_execute", "on_init", "on_prepare"} /\ e.st = "ret"
                                       /\ LET us == Denote(e.prog, e.bin, at).units IN
                                          \E k \in 1..Len(us) : us[k].k = "err" \/ (us[k].k = "rs" /\ us[k].term = "err")
@@ -274,7 +284,7 @@ Step ==
   /\ LET e == Rec[l] IN
      CASE e.e = "begin" ->
             /\ m' = IF e.kind = "conn"
-                    THEN [M0 EXCEPT !.run = e.run, !.kind = e.kind, !.shim = e.shim, !.tls = e.tls, !.ctls = e.ctls, !.ccert = e.ccert, !.auth = e.auth, !.mode = e.mode]
+                    THEN [M0 EXCEPT !.run = e.run, !.kind = e.kind, !.shim = e.shim, !.tls = e.tls, !.ctls = e.ctls, !.ccert = e.ccert, !.cchain = e.cchain, !.auth = e.auth, !.mode = e.mode]
                     ELSE [M0 EXCEPT !.run = e.run, !.kind = e.kind]
             /\ viol' = {}
        [] e.e = "wr" ->
@@ -335,6 +345,9 @@ Step ==
                                    ELSE {})
                                   \cup (IF mm.enc /\ mm.ctls /\ mm.ccert /\ e.ncerts < 1 THEN {V("C18", l, "the client's certificate chain did not reach after_authentication")} ELSE {})
                                   \cup (IF ~(mm.enc /\ mm.ctls /\ mm.ccert) /\ e.ncerts > 0 THEN {V("C18", l, "certificates reported although the client presented none")} ELSE {})
+                                  \* the whole chain, in the order presented (fingerprints = [length, checksum] per certificate)
+                                  \cup (IF mm.enc /\ mm.ctls /\ mm.ccert /\ e.ncerts >= 1 /\ e.certs # mm.cchain
+                                        THEN {V("C18", l, "the certificate chain that reached after_authentication differs from the chain the client presented")} ELSE {})
                                 ELSE IF e.name \in {"on_execute", "on_close"} THEN
                                   (IF e.id # c.arg THEN {V("C02", l, "statement id passed to " \o e.name \o " differs"), V("C10", l, "statement id passed to " \o e.name \o " differs")} ELSE {})
                                 ELSE IF c.judge /\ e.text # c.arg THEN {V("C02", l, "argument of " \o e.name \o " differs from what the client sent"), V("C01", l, "argument of " \o e.name \o " differs from the bytes the client sent")}
@@ -368,6 +381,8 @@ Step ==
                        ce == ConvExpected(w.ct, w.inner)
                        tags == {"C08"} \cup (IF ~x.rebind THEN {"C16"} ELSE {})
                                \cup (IF DOMAIN m.reg[RegFind(m.reg, q.cls.arg)].long # {} THEN {"C17"} ELSE {})
+                               \* the first execution of an id that was prepared before on this connection: a re-prepared id starts afresh
+                               \cup (IF m.reg[RegFind(m.reg, q.cls.arg)].first /\ m.reg[RegFind(m.reg, q.cls.arg)].again THEN {"C10"} ELSE {})
                    IN /\ m' = [m EXCEPT !.q[m.cur].npv = @ + 1, !.n.pvs = @ + 1]
                       /\ viol' = viol
                            \cup (IF e.ct # w.ct THEN {V(t, l, "parameter type code differs from the bound type") : t \in tags} ELSE {})
@@ -380,10 +395,12 @@ Step ==
        [] e.e = "w" ->
             IF m.cur = 0 THEN UNCHANGED <<m, viol>>
             ELSE LET o == e.op
-                     mm == [m EXCEPT !.q[m.cur].prog = Append(@, [op |-> o, res |-> e.res, st |-> e.st])]
+                     mm == [m EXCEPT !.q[m.cur].prog = Append(@, [op |-> o, res |-> e.res, st |-> e.st, kind |-> IF "kind" \in DOMAIN e THEN e.kind ELSE ""])]
                      bin == m.q[m.cur].bin
                  IN /\ m' = IF o.op = "reply" /\ e.res = "ok"
-                            THEN [mm EXCEPT !.reg = RegPut(@, [id |-> o.id, np |-> Len(o.params), types |-> << >>, long |-> NoLong])]
+                            THEN [mm EXCEPT !.reg = RegPut(@, [id |-> o.id, np |-> Len(o.params), types |-> << >>, long |-> NoLong,
+                                                                first |-> TRUE, again |-> o.id \in m.ever]),
+                                            !.ever = @ \cup {o.id}]
                             ELSE [mm EXCEPT !.wpanic = @ \/ e.res = "panic"]
                     /\ viol' = viol \cup
                          (IF e.res # "panic" \/ m.fault THEN {}
@@ -410,9 +427,12 @@ Step ==
                      mm == [m EXCEPT !.q[m.cur].st = "ret", !.q[m.cur].ret = IF isok THEN "ok" ELSE "err", !.cur = 0,
                                      !.dead = IF ~isok /\ @ = "" THEN (IF q.cls.kind = "hs" THEN "authentication rejected" ELSE "shim callback failed") ELSE @,
                                      !.token = IF ~isok /\ m.dead = "" /\ e.ret.k = "shim" THEN e.ret.token ELSE @,
-                                     !.reg = IF r # 0 THEN [@ EXCEPT ![r].long = NoLong, ![r].types = IF q.exp.ok THEN q.exp.types ELSE @] ELSE @]
+                                     !.reg = IF r # 0 THEN [@ EXCEPT ![r].long = NoLong, ![r].types = IF q.exp.ok THEN q.exp.types ELSE @, ![r].first = FALSE] ELSE @]
+                     \* calls that were wrongly accepted or wrongly refused are violations whatever happened afterwards
+                     denv == IF q.cls.cb \in {"on_query", "on_execute"} /\ ~m.fault /\ ~m.lost /\ ~m.free
+                             THEN {x \in Denote(q.prog, q.bin, l).viol : x.p # "MISUSE"} ELSE {}
                  IN /\ m' = mm
-                    /\ viol' = viol \cup pvv
+                    /\ viol' = viol \cup pvv \cup denv
        [] e.e = "end" /\ m.kind # "conn" ->
             /\ m' = [m EXCEPT !.done = TRUE]
             /\ UNCHANGED viol
